@@ -36,9 +36,10 @@ I1  == CA("I1",  "I1", "R1", "kI1", "kR1")
 I2  == CA("I2",  "I2", "I1", "kI2", "kI1")
 P   == [CA("P",  "P",  "I1", "kP",  "kI1") EXCEPT !.ekus = {"ct"}]      \* precertificate signing certificate
 Pf  == [CA("Pf", "Pf", "I1", "kPf", "kI1") EXCEPT !.ekus = {"ct"}]      \* the same with a keyid+issuer+serial AKI
+Pm  == [CA("Pm", "Pm", "I1", "kPm", "kI1") EXCEPT !.ekus = {"server", "ct"}]   \* the CT usage listed after another one
 
 \* issuance: the certificates between the leaf and R1, leaf side first
-Issuance == [underI1 |-> <<I1>>, underI2 |-> <<I2, I1>>, viaP |-> <<P, I1>>, viaPf |-> <<Pf, I1>>]
+Issuance == [underI1 |-> <<I1>>, underI2 |-> <<I2, I1>>, viaP |-> <<P, I1>>, viaPf |-> <<Pf, I1>>, viaPm |-> <<Pm, I1>>]
 Issuances == DOMAIN Issuance
 \* what the submitter appends after the intermediates
 Tails == {"noroot", "root", "cross", "crossroot"}
@@ -48,24 +49,43 @@ Keys == {"p256", "p384", "rsa2048", "ed25519"}
 Quirks == {"none", "ip3", "emptyAIA"}          \* a 3-byte iPAddress name / an empty AuthorityInfoAccess: non-fatal for the lax parser
 Storages == {"direct", "lru1", "lruBig", "noop"}   \* chains in the backend leaf / outside it behind an LRU of 1, a roomy LRU, no cache
 Trusts == [T1 |-> {R1}, T12 |-> {R1, R2}]
+\* the octets of the leaf element on the wire: exactly one DER certificate; one certificate whose serial number has a
+\* superfluous leading zero octet (not DER; the lenient parser takes it); either of them followed by further octets
+\* inside the same chain element (then the element is not a certificate)
+Wires == {"exact", "laxSerial", "trailing", "laxSerialTrailing"}
+IsCertificate(wire) == wire \in {"exact", "laxSerial"}
 
-Shapes == {s \in [kind : Kinds, iss : Issuances, tail : Tails, key : Keys, quirk : Quirks, storage : Storages, trust : DOMAIN Trusts] :
-             /\ (s.iss \in {"viaP", "viaPf"} => s.kind = "precert")
-             /\ (s.tail \in {"cross", "crossroot"} => s.trust = "T12")}
+PreIssuers == {"viaP", "viaPf", "viaPm"}
+Shapes == {s \in [kind : Kinds, iss : Issuances, tail : Tails, key : Keys, quirk : Quirks, storage : Storages, trust : DOMAIN Trusts, wire : Wires] :
+             /\ (s.iss \in PreIssuers => s.kind = "precert")
+             /\ (s.tail \in {"cross", "crossroot"} => s.trust = "T12")
+             \* the wire oddities are independent of the other dimensions: one representative combination each
+             /\ (s.wire # "exact" => /\ s.iss \in {"underI1", "viaP"} /\ s.tail = "noroot" /\ s.quirk = "none"
+                                     /\ s.key = "p256" /\ s.trust = "T1")}
 
-LeafOf(s) == Leaf("L", Issuance[s.iss][1].subj, Issuance[s.iss][1].key, IF s.kind = "precert" THEN "ok" ELSE "none")
+LeafOf(s) == [Leaf("L", Issuance[s.iss][1].subj, Issuance[s.iss][1].key, IF s.kind = "precert" THEN "ok" ELSE "none")
+                EXCEPT !.parses = IsCertificate(s.wire)]
 Submitted(s) == <<LeafOf(s)>> \o Issuance[s.iss] \o TailOf[s.tail]
 Trusted(s) == Trusts[s.trust]
 
 \* the paths the log may store
 Stored(s) == Paths(Submitted(s), Trusted(s))
 \* precert entries: the final issuer is the first certificate after the leaf that is not a precertificate signing certificate
-ViaPreIssuer(s) == s.iss \in {"viaP", "viaPf"}
+ViaPreIssuer(s) == s.iss \in PreIssuers
 FinalIssuerPos(s) == IF ViaPreIssuer(s) THEN 3 ELSE 2
 
 (* ---------------- laws ---------------- *)
-\* every shape of the table is admissible and the code's search hands on exactly allowed paths
-Admissible(s) == ChainOK(Submitted(s), Trusted(s)) /\ CodeShape(Submitted(s), Trusted(s)) /\ PathLaw(Submitted(s), Trusted(s))
+\* NAMED CLAUSE PrecertNeedsDER.  An X.509 entry carries the submitted octets verbatim, so a leaf that only the lenient
+\* parser takes is logged as it stands.  A precert entry is computed from the TBSCertificate (poison removed, issuer
+\* rewritten), which the code only does for DER: a precertificate that is not DER passes chain validation and is then
+\* refused (400) when the entry is built.  The properties speak of canonical TBSCertificates (C03) and of what a 200
+\* promises (C01); the refusal is recorded here, not asserted as a defect.
+Buildable(s) == s.kind = "precert" => s.wire \notin {"laxSerial", "laxSerialTrailing"}
+Admit1(s) == ChainOK(Submitted(s), Trusted(s)) /\ Buildable(s)
+\* every shape of the table with a well-formed leaf element passes chain validation, and the code's search hands on
+\* exactly allowed paths
+Admissible(s) == /\ ChainOK(Submitted(s), Trusted(s)) = IsCertificate(s.wire)   \* an element that is not one certificate is refused
+                 /\ CodeShape(Submitted(s), Trusted(s)) /\ PathLaw(Submitted(s), Trusted(s))
 \* here the stored path is determined: the submission, plus the one trusted issuer of its last certificate when that
 \* one is not trusted itself.  In particular a cross-signed twin of a trusted root is kept and followed by the root
 \* that signed it (never replaced by the trusted certificate of the same name and key).
@@ -75,13 +95,13 @@ StoredPathOf(s) ==
        [] s.tail = "root"      -> ch
        [] s.tail = "cross"     -> Append(ch, R2)
        [] s.tail = "crossroot" -> ch
-Determined(s) == Stored(s) = {StoredPathOf(s)}
+Determined(s) == Admit1(s) => Stored(s) = {StoredPathOf(s)}
 \* the final issuer of a precertificate is a CA that is not itself a precertificate signing certificate
 FinalIssuerOK(s) == s.kind = "precert" =>
   LET c == StoredPathOf(s)[FinalIssuerPos(s)] IN c.isCA /\ "ct" \notin c.ekus
 
 Ids(p) == [i \in 1..Len(p) |-> p[i].id]
-Case(s) == [shape |-> s, submitted |-> Ids(Submitted(s)), path |-> Ids(StoredPathOf(s)),
+Case(s) == [shape |-> s, admit |-> Admit1(s), submitted |-> Ids(Submitted(s)), path |-> Ids(StoredPathOf(s)),
             trusted |-> {c.id : c \in Trusted(s)},
             entryType |-> IF s.kind = "precert" THEN "precert_entry" ELSE "x509_entry",
             finalIssuer |-> IF s.kind = "precert" THEN StoredPathOf(s)[FinalIssuerPos(s)].id ELSE "",
